@@ -311,6 +311,10 @@ structure RWCfg where
   step : Rat           -- spacing_step
   cont : Bool
   maxIter : Nat
+  /-- Number of sweep targets after `spacing_high` itself: `while current_spacing <= spacing_high + step:
+      … current_spacing += step / 10` gives 10 in exact arithmetic; the float accumulation sometimes
+      overshoots the end and gives 9 (observed on real runs; the harness passes what the run did). -/
+  nExtra : Nat := 10
   deriving Repr
 
 /-- What the RowWise search returns: a generated field (by spacing), or a sub-field of the
@@ -389,7 +393,7 @@ def rowwiseSearch (Es : Rat → Rat) (nb : Rat → Nat) (szs : Rat → Rat) (E1 
     let b := rwBisect Es c.maxIter
       { hi := c.start, lo := c.stop, lowE := tU, highE := tL, m := (c.stop + c.start) / 2, trace := tr0 }
     let change := c.step / 10          -- (spacing_l - current_spacing) / 10 with spacing_l = step + high
-    let targets := (List.range 11).map (fun (k : Nat) => b.hi + (k : Nat) * change)
+    let targets := (List.range (c.nExtra + 1)).map (fun (k : Nat) => b.hi + (k : Nat) * change)
     match rwSweep Es nb szs targets none with
     | none => (.valueError, b.trace)         -- unreachable: the target list is never empty
     | some (s, _) => (.selected (.atSpacing s) false, b.trace ++ targets.map .sp)
@@ -460,7 +464,10 @@ def cmd : List String → Option String
       let some start := parseRat? start | return "bad-arg"
       let some stop := parseRat? stop | return "bad-arg"
       let some step := parseRat? step | return "bad-arg"
-      let some mi := mi.toNat? | return "bad-arg"
+      -- `max_iter` or `max_iter:extra` (number of sweep targets after spacing_high; default 10)
+      let some miN := ((mi.splitOn ":").headD "").toNat? | return "bad-arg"
+      let some nExtra := (match (mi.splitOn ":").drop 1 with | [] => some 10 | x :: _ => x.toNat?) | return "bad-arg"
+      let mi := miN
       let some e1 := parseRat? e1 | return "bad-arg"
       let some nsp := nsp.toNat? | return "bad-arg"
       let spToks := rest.take (4 * nsp)
@@ -480,7 +487,7 @@ def cmd : List String → Option String
       let Es : Rat → Rat := fun sp => match look sp with | some r => r.2.2.1 | none => 424242
       let nb : Rat → Nat := fun sp => match look sp with | some r => r.2.1 | none => 0
       let szs : Rat → Rat := fun sp => match look sp with | some r => r.2.2.2 | none => 0
-      let c : RWCfg := { start := start, stop := stop, step := step, cont := cont = "1", maxIter := mi }
+      let c : RWCfg := { start := start, stop := stop, step := step, cont := cont = "1", maxIter := mi, nExtra := nExtra }
       let (o, tr) := rowwiseSearch Es nb szs e1 (fun n => esub.getD (n - 1) 424242) c
       let showEv : RWEval → String
         | .sp sp => (if (look sp).isNone then "?" else "") ++ "s" ++ showRat sp
